@@ -1,8 +1,10 @@
 import DepsDev.Drive.Loop
 import DepsDev.Model.Resolve.Npm
+import DepsDev.Model.Resolve.NpmBundle
 import DepsDev.Props.C06
 open DepsDev
 open DepsDev.Resolve.Npm
+open DepsDev.Resolve
 
 /-! Line-protocol driver for C06 (wire format: see `harness/universe/npm_universe.go`).
 
@@ -21,6 +23,11 @@ every other field uses indices into it (0 `""`, 1 `*`, 2 `bundle`, 3 `peer`, 4 `
   i:<name>:<req>:<mask>:<attrs>     an import of the preceding `v` (in `client.Requirements` order)
   m:<pkg>:<req>:<vers>              `client.MatchingVersions` (`!` = error, `_` = none, else `ver,ver…`)
   s:<req>:<vers>                    `semver.NPM.ParseConstraint(req)` (`!` = error) and the version strings it matches
+  x:<name>:<suffix>                 for a name containing `>`: the part after the last `>` (bundles only)
+
+Universes with a `DerivedFrom` version are answered by the extended model `NpmBundle`
+(no theorems); all others by the core model `Npm`, and the extended model is run as well:
+if the two differ the answer is `model-divergence`.
 
 The run has `fuel` pops of the queue; exhausted fuel prints `timeout`. The harness
 chooses the fuel: 2 + the number of edges of Go's graph when Go finishes (a run pops at
@@ -45,6 +52,7 @@ structure Raw where
   versions : List (Version × List Import) := []   -- reversed, imports reversed
   matching : List ((Name × Name) × Option (List Name)) := []
   semver : List (Name × Option (List Name)) := []
+  suffix : List (Name × Name) := []
 
 def parseRec (r : Raw) (rec : String) : Option Raw :=
   match rec.splitOn ":" with
@@ -77,9 +85,13 @@ def parseRec (r : Raw) (rec : String) : Option Raw :=
       let l ← parseList vs
       let l ← l.mapM (·.toNat?)
       pure { r with semver := (q, some l) :: r.semver }
+  | ["x", n, sfx] => do
+    let n ← n.toNat?
+    let sfx ← sfx.toNat?
+    pure { r with suffix := (n, sfx) :: r.suffix }
   | _ => none
 
-def parseUniverse (s : String) : Option Universe := do
+def parseUniverseB (s : String) : Option NpmBundle.BUniverse := do
   let r ← (s.splitOn ";").foldlM parseRec {}
   let versions := (r.versions.map fun (v, is) => (v, is.reverse)).reverse
   let matching ← r.matching.reverse.mapM fun ((p, q), a) =>
@@ -91,7 +103,9 @@ def parseUniverse (s : String) : Option Universe := do
         | some (v, _) => some v
         | none => none
       pure ((p, q), some vs)
-  pure { versions := versions, matching := matching, semver := r.semver.reverse }
+  pure { u := { versions := versions, matching := matching, semver := r.semver.reverse }, suffix := r.suffix.reverse }
+
+def parseUniverse (s : String) : Option Universe := (parseUniverseB s).map (·.u)
 
 def parseRoot (s : String) : Option (Name × Name) :=
   if s.startsWith "root=" then
@@ -148,18 +162,46 @@ def showState (st : State) : String :=
   " E=" ++ joinOr "," (st.edges.map showEdge) ++
   " T=" ++ joinOr "," (entries.map (·.2))
 
+def showEntryB (p : Path) (n : NpmBundle.BNode) : String :=
+  let path := if p.isEmpty then "." else "/".intercalate (p.reverse.map fun s => toString s.name)
+  let isAlias := match p with | s :: _ => s.alias | [] => false
+  let flags := (if isAlias then "a" else "") ++ (if n.bundled.isSome then "b" else "") ++ (if n.processed then "p" else "")
+  let flags := if flags.isEmpty then "-" else flags
+  s!"{path}:{n.ver.name}@{n.ver.version}#{n.id}:{flags}:" ++
+    joinOr "+" ((sortNat n.prot).map toString) ++ ":" ++ joinOr "+" ((sortNat n.aprot).map toString)
+
+def insPair (x : Nat × Nat) : List (Nat × Nat) → List (Nat × Nat)
+  | [] => [x]
+  | y :: r => if x.1 < y.1 || (x.1 == y.1 && x.2 ≤ y.2) then x :: y :: r else y :: insPair x r
+
+def showStateB (st : NpmBundle.BState) : String :=
+  let entries := st.tree.foldr (fun (p, n) acc => insEntry (entryKey p, showEntryB p n) acc) []
+  let unused := st.unused.foldr insPair []
+  "ok N=" ++ joinOr "," (st.nodes.map showNode) ++
+  " E=" ++ joinOr "," (st.edges.map showEdge) ++
+  " T=" ++ joinOr "," (entries.map (·.2)) ++
+  (if unused.isEmpty then "" else " X=" ++ "+".intercalate (unused.map fun (n, v) => s!"{n}@{v}"))
+
+def runB (bu : NpmBundle.BUniverse) (rn rv fuel : Nat) : String :=
+  match DepsDev.Resolve.NpmBundle.resolve bu rn rv fuel with
+  | none => "timeout"
+  | some .bad => "bad-universe"
+  | some .err => "err"
+  | some (.ok st) => showStateB st
+
 def hasBundles (u : Universe) : Bool :=
   u.versions.any fun (v, _) => (v.attr.get verDerivedFrom).isSome
 
 def run (us root : String) (fuel : Nat) : String :=
-    match parseUniverse us, parseRoot root with
-    | some u, some (rn, rv) =>
-      if hasBundles u then "out-of-domain" else
-      match resolve u rn rv fuel with
-      | none => "timeout"
-      | some .bad => "bad-universe"
-      | some .err => "err"
-      | some (.ok st) => showState st
+    match parseUniverseB us, parseRoot root with
+    | some bu, some (rn, rv) =>
+      if hasBundles bu.u then runB bu rn rv fuel else
+      let core := match resolve bu.u rn rv fuel with
+        | none => "timeout"
+        | some .bad => "bad-universe"
+        | some .err => "err"
+        | some (.ok st) => showState st
+      if core == runB bu rn rv fuel then core else "model-divergence"
     | _, _ => "bad-op"
 
 def bit (b : Bool) : String := if b then "1" else "0"
